@@ -75,6 +75,7 @@ type exerciseOpts struct {
 	heavy          bool // set per node: also run the calls whose cost is linear in the subtree
 	maxNodes       int  // per-node exercising is limited to this many tape positions
 	allowInterface bool // Interface/Map recursion (excluded for extreme nesting, see KNOWN_FINDINGS KF-1)
+	linearOnly     bool // extreme nesting: the harness's own recursive walkers (W1, W3, W4) would overflow the stack; use the iterative ones
 }
 
 func exercise(pj *simdjson.ParsedJson, o exerciseOpts) error {
@@ -90,10 +91,12 @@ func exercise(pj *simdjson.ParsedJson, o exerciseOpts) error {
 		}
 		return true
 	}
-	if !run("walk Advance/typed (W1)", func() { walkW1(pj) }) ||
-		!run("walk AdvanceInto (W2)", func() { walkW2(pj) }) ||
+	if !run("walk AdvanceInto (W2)", func() { walkW2(pj) }) {
+		return err
+	}
+	if !o.linearOnly && (!run("walk Advance/typed (W1)", func() { walkW1(pj) }) ||
 		!run("walk AdvanceIter (W3)", func() { walkW3(pj) }) ||
-		!run("walk ForEach (W4)", func() { walkW4(pj) }) {
+		!run("walk ForEach (W4)", func() { walkW4(pj) })) {
 		return err
 	}
 	if o.allowInterface && !run("Iter.Interface on the tape (W5)", func() { walkW5(pj) }) {
